@@ -888,28 +888,29 @@ pub fn run_c18(run: &mut Run) -> Stats {
                 }
             };
             let cap = tier.pick(4_000u64, 200_000);
-            match crate::sysched::explore(*bound, cap, &mut mk, &mut check) {
-                Err(m) => {
-                    eprintln!("MACHINERY ERROR: system-call scheduler: {m}");
-                    std::process::exit(2);
+            let ex = crate::sysched::explore(*bound, cap, &mut mk, &mut check);
+            {
+                total_exec += ex.executions;
+                calls.extend(ex.calls_seen.iter().copied());
+                st.evaluations += ex.executions;
+                st.count("syscall_interleavings", ex.executions);
+                if ex.capped_at != 0 {
+                    st.count("syscall_interleaving_shapes_capped", 1);
                 }
-                Ok(ex) => {
-                    total_exec += ex.executions;
-                    calls.extend(ex.calls_seen.iter().copied());
-                    st.evaluations += ex.executions;
-                    st.count("syscall_interleavings", ex.executions);
-                    if ex.capped_at != 0 {
-                        st.count("syscall_interleaving_shapes_capped", 1);
+                if let Some(tr) = &ex.hang {
+                    if bad.is_none() {
+                        let sched: Vec<String> = tr.iter().map(|d| format!("T{}:{}", d.opts[d.chosen], d.call)).collect();
+                        bad = Some((tr.iter().map(|d| d.chosen).collect(), format!("the threads did not finish within 30 s; schedule so far {}", sched.join(" "))));
                     }
-                    sys_info.push(json!({"ranges": ranges, "via_serve": via_serve, "preemption_bound": if *bound == unb { json!("none") } else { json!(bound) }, "caller_left_cursor_at": cursor, "executions": ex.executions, "max_decisions": ex.max_decisions, "max_preemptions_used": ex.max_preemptions_used, "capped_at": ex.capped_at}));
-                    for c in &distinct {
-                        st.nontrivial(&("sys", si, c));
-                    }
-                    let s0 = st.state(&("sys", si));
-                    let s1 = st.state(&("sys-result", bad.is_none()));
-                    st.transition(s0, 0, s1);
-                    st.outcome(format!("threads-sharing-one-file/{}", if bad.is_none() { "ok" } else { "bad" }));
                 }
+                sys_info.push(json!({"ranges": ranges, "via_serve": via_serve, "preemption_bound": if *bound == unb { json!("none") } else { json!(bound) }, "caller_left_cursor_at": cursor, "executions": ex.executions, "max_decisions": ex.max_decisions, "max_preemptions_used": ex.max_preemptions_used, "capped_at": ex.capped_at, "threads_found_blocked_outside_the_interposed_calls": ex.blocked_events, "executions_skipped_because_not_reproducible": ex.diverged}));
+                for c in &distinct {
+                    st.nontrivial(&("sys", si, c));
+                }
+                let s0 = st.state(&("sys", si));
+                let s1 = st.state(&("sys-result", bad.is_none()));
+                st.transition(s0, 0, s1);
+                st.outcome(format!("threads-sharing-one-file/{}", if bad.is_none() { "ok" } else { "bad" }));
             }
             if let Some((choices, msg)) = bad {
                 if prop == "C18" {
